@@ -16,5 +16,7 @@ race=""
 if grep -qi -- "-race" $dir/m$k.md 2>/dev/null; then race="-race"; fi
 if go test -vet=off -count=1 $race -run "TestDemoM$k\$" . > $dir/m$k.demo_with.log 2>&1; then echo "m$k: REJECT demo passes WITH the change"; exit 1; fi
 git checkout -q -- . 
+git clean -fdq
+cp $dir/m${k}_demo_test.go $wt/zz_demo_m${k}_test.go
 if ! go test -vet=off -count=1 $race -run "TestDemoM$k\$" . > $dir/m$k.demo_without.log 2>&1; then echo "m$k: REJECT demo fails WITHOUT the change"; exit 1; fi
 echo "m$k: CONFIRMED (suite passes with change; demo fails with change$race; demo passes without)"
